@@ -29,9 +29,12 @@ def run(ctx):
     for rr in res:
         ctx.count()
         ctx.nontriv("%s/%s" % (rr["id"], rr["variant"]))
+        if rr.get("sig") == "TOOL":
+            raise ToolError(rr["detail"])
         if not rr["ok"]:
             rp = dict(scns[rr["id"]])
             rp["seg"] = rr["variant"]
+            rp["idx"] = rr["id"]          # several dimensions derive from the position
             st = tried.setdefault(rr["sig"], {"ok": 0, "tries": 0})
             if st["ok"]:
                 ctx.violation(rr["sig"], rr["detail"], rp)
